@@ -217,7 +217,15 @@ class DBNInference(Inference):
            The new timeslice to which the factor should belong to.
         """
         new_scope = self._shift_nodes(factor.scope(), shift)
-        return DiscreteFactor(new_scope, factor.cardinality, factor.values)
+        return DiscreteFactor(
+            new_scope,
+            factor.cardinality,
+            factor.values,
+            state_names={
+                new: factor.state_names[old]
+                for new, old in zip(new_scope, factor.scope())
+            },
+        )
 
     def forward_inference(self, variables, evidence=None, args=None):
         """
@@ -306,7 +314,10 @@ class DBNInference(Inference):
                 for key in new_values.keys():
                     new_key = (key[0], time_slice)
                     new_factor = DiscreteFactor(
-                        [new_key], new_values[key].cardinality, new_values[key].values
+                        [new_key],
+                        new_values[key].cardinality,
+                        new_values[key].values,
+                        state_names={new_key: new_values[key].state_names[key]},
                     )
                     changed_values[new_key] = new_factor
                 factor_values.update(changed_values)
@@ -411,7 +422,10 @@ class DBNInference(Inference):
                 for key in new_values.keys():
                     new_key = (key[0], time_slice)
                     new_factor = DiscreteFactor(
-                        [new_key], new_values[key].cardinality, new_values[key].values
+                        [new_key],
+                        new_values[key].cardinality,
+                        new_values[key].values,
+                        state_names={new_key: new_values[key].state_names[key]},
                     )
                     changed_values[new_key] = new_factor
                 factor_values.update(changed_values)
